@@ -185,12 +185,12 @@ def c01(tier, seed):
     parts = [Run(f"layoutx{k}", "debug", [], shards=1, label=f"layoutx{k}/debug") for k in range(8)]
     if tier == "quick":
         return [Run("layout", "debug", [], shards=2)] + parts + [
-            Run("layout", "miri", ["--part", "roundtrip,lattice,boxed", "--maxn", "8"], shards=16, label="layout/miri(N<=8)"),
+            Run("layout", "miri", ["--part", "roundtrip,lattice,boxed,views", "--maxn", "8"], shards=16, label="layout/miri(N<=8)"),
         ]
     return [Run("layout", "debug", [], shards=4), Run("layout", "release", [], shards=4)] + parts + [
         Run(f"layoutx{k}", "release", [], shards=1, label=f"layoutx{k}/release") for k in range(8)
     ] + [
-        Run("layout", "miri", ["--part", "roundtrip,lattice,tiling,boxed", "--maxn", "100"], shards=32, label="layout/miri(N<=100)"),
+        Run("layout", "miri", ["--part", "roundtrip,lattice,tiling,boxed,views", "--maxn", "100"], shards=32, label="layout/miri(N<=100)"),
     ]
 
 
